@@ -27,6 +27,12 @@ SHEET_CONTEXTS = [
     ('a{b:', '}'), ('a{', ':c}'), ('', '{b:c}'), ('a{b:c', ';d:e}'), ('@media ', '{a{b:c}}'),
     ('a{b:', '} d{e:f}'), ('@import "', '";'), ('a[b="', '"]{}'), ('a{b:url("', '")}'),
     ('@', ' x;'), ('a{b:f(', ')}'), ('a{b:#', '}'),
+    # escaped delimiters inside names (the tokenizer decodes them into the token value)
+    ('a\\|', ''), ('a\\|b|', ''), ('a\\7c b|', ''), ('.\\{', ''), ('#\\[', ''), ('a\\(', ''), ('a\\:', ''),
+    ('a\\,', ''), ('a[\\]', ''), ('a{b\\:', ''), ('a{b:c\\;', ''), ('a{b:c\\}', ''), ('a{b:c\\!', ''),
+    ('a{b:\\(', ''), ('@\\{', ''), ('@media \\,', ''), ('a{color:#abc\\', ''), ('a{color:#a\\', ''),
+    ('a:nth-child(/**/', ''), ('a:not(/**/', ''), ('a{b:f(/**/', ''),
+    ('@charset "hex";a{b:c}', ''), ('@charset "rot13";', ''), ('@charset "idna";a{', ''),
 ]
 
 STYLE_CONTEXTS = [
